@@ -34,7 +34,9 @@ use starlark_derive::starlark_value;
 
 use crate as starlark;
 use crate::any::ProvidesStaticType;
+use crate::collections::StarlarkHashValue;
 use crate::collections::StarlarkHasher;
+use crate::private::Private;
 use crate::typing::Ty;
 use crate::typing::TyBasic;
 use crate::typing::TypingBinOp;
@@ -318,6 +320,11 @@ impl<'v> StarlarkValue<'v> for StarlarkBigInt {
         Ok(())
     }
 
+    fn get_hash(&self, _private: Private) -> crate::Result<StarlarkHashValue> {
+        // Must agree with `int` and `float`: equal numbers have equal hashes.
+        Ok(NumRef::Int(StarlarkIntRef::Big(self)).get_hash())
+    }
+
     fn typechecker_ty(&self) -> Option<Ty> {
         Some(Ty::int())
     }
@@ -330,7 +337,9 @@ mod tests {
     use num_bigint::BigInt;
 
     use crate::assert;
-    use crate::collections::StarlarkHasher;
+    use crate::collections::StarlarkHashValue;
+use crate::collections::StarlarkHasher;
+use crate::private::Private;
     use crate::values::StarlarkValue;
     use crate::values::float::StarlarkFloat;
     use crate::values::types::bigint::StarlarkBigInt;
